@@ -637,6 +637,22 @@ fn ibc_plans(thorough: bool) -> Vec<Plan> {
             ("refundable11", small_funds(|| refundable_seed(&k, 11), 40)),
             ("refundable12_from_seq8", small_funds(|| refundable_seed_from(&k, 12, 8), 40)),
             ("refundable140", small_funds(|| refundable_seed(&k, 140), 40)),
+            // a refunded transfer behind eleven that are still in flight: the page of ten has to be filled
+            // from the refundable ones, not from whatever comes first
+            ("refundable_behind_inflight", small_funds(
+                || {
+                    let mut s = seed_resumed(&k);
+                    for i in 0..11u128 {
+                        let ap = s.apply(&hold(stake(&u(1), 10 + i)));
+                        assert!(ap.out.ok, "{:?}", ap.out.err);
+                    }
+                    let ap = s.apply(&hold(stake(&u(1), 77)));
+                    assert!(ap.out.ok, "{:?}", ap.out.err);
+                    s.apply(&Act::Outcome { seq: ap.out.new_packets[0], kind: 2 });
+                    s
+                },
+                40,
+            )),
             ("mixed_refundable", small_funds(|| seed_mixed_refundable(&k, seed_two_stakes(&k), false), 60)),
             ("mixed_refundable_lst_lowest", small_funds(|| seed_mixed_refundable(&k, seed_two_stakes(&k), true), 60)),
             ("refundable2_two_denoms", small_funds(
@@ -860,6 +876,12 @@ fn fee_plans(thorough: bool) -> Vec<Plan> {
             }
             a.push(fee_withdraw(&p20("x"), fees));
             a.push(fee_withdraw(&p20("tre"), fees));
+            // the bank may refuse to pay the treasury (partial failure of a multi-message response)
+            if s.w.ibc.reply_fault == 0 && cfg.protocol_fee_config.treasury_address.is_some() {
+                a.push(Act::ReplyFault { mode: 4 });
+            } else if s.w.ibc.reply_fault != 0 {
+                a.push(Act::ReplyFault { mode: 0 });
+            }
             a
         });
         let mut sc = mk(&format!("fee-{}", k.name), vec!["C11"], seeds, menu);
